@@ -7,6 +7,10 @@ HOOK_COMMITS = subprocess.run(["git", "-C", "/repo", "log", "--format=%h %s", "-
 CLAIMED = {
     "C01": ("§4 C01", "Seeded exploration of put-then-get over real networks (1..20 servers + 0..30 clients exact verdict; 50..300 servers judged by success rate against a floor of 0.75, measured baseline 0.96), all four data kinds, crash sets (random, all-ackers-but-one, hub, non-ackers) with empty restarts, readers with lookups already in flight; precondition (a live acker reachable through live tables of the kind the lookup walks) evaluated from snapshots; two open known findings (queries keyed by target only).",
             "deterministic simulation with crash/restart fault injection, availability oracle over trace + snapshots"),
+    "C12": ("§4 C12", "Always-on invariant over every snapshot (structure, bucket placement, capacity, size/iteration/is_empty agreement, per-IP Sybil limits) and every pair of consecutive snapshots (an entry vanishes only when stale or on re-key; a full bucket replaces only its stale head) of real servers whose tables are driven through the protocol path by adversarial find_node streams (clustered ids, repeated ids, many ids per IP, secure/insecure), across the 15-minute boundary and a re-key.",
+            "deterministic simulation with virtual clock, adversarial request streams, per-step snapshot invariants"),
+    "C14": ("§4 C14", "Seeded exploration of 1..6 virtual hours of 3..16-node networks with crashes, restarts, lookups and clock skew; every 30 virtual seconds: answered-within-15-min peers still present (capacity / IP-slot / re-key exempt), dead incarnations gone after 21 min, restarted peers re-learned within 40 min, no table empty beyond timeout + 2 s.",
+            "deterministic simulation over virtual hours with crash/restart faults, timeline oracle over trace + snapshots"),
     "C13": ("§4 C13", "Seeded exploration of join schedules (sequential, staggered, simultaneous, late joiners), sizes 1..20 (+0..30 clients) and 50..300, private/public IP plans, dead bootstrap entries: bootstrapped()/non-empty table, first node learns joiners, strongly connected knows-graph, every-server-queried for <= 20 servers, all-dead bootstrap list reports false within the horizon.",
             "deterministic simulation, seeded join-schedule sampling, graph + trace oracle"),
     "C02": ("§4 C02", "Seeded exploration with Byzantine scripted responders: every item surfaced by the six read APIs is independently re-verified (hash / key / salt / signature / target) and authentic replicas must still surface; catalogue of 22 forgeries, any subset of responders, any arrival order.",
@@ -41,7 +45,7 @@ NOT_APPLICABLE = {
 }
 
 # properties designed in DESIGN.md whose checks are not built yet are listed as not claimed (reason says so)
-PENDING = ["C12", "C14", "C18", "C20"]
+PENDING = ["C18", "C20"]
 
 checks = []
 for pid, (ref, text, tech) in sorted(CLAIMED.items()):
